@@ -610,13 +610,7 @@ func genNames(t *target, facts map[string]interface{}) error {
 		}
 		fmt.Fprintf(&b, "/-- `%s`: the loop ranges over a %s (`%s`) -/\ndef %sRangeKind : String := %s\n", fn, sh.RangeKind, sh.RangeExpr, prefix, leanString(sh.RangeKind))
 		fmt.Fprintf(&b, "def %sRangeExpr : String := %s\n", prefix, leanString(sh.RangeExpr))
-		fmt.Fprintf(&b, "/-- `strings.ToLower` is applied to the string parameter -/\ndef %sLowersInput : Bool := %s\n", prefix, leanBool(sh.LowersInput))
-		fmt.Fprintf(&b, "/-- `strings.ToLower` is applied to the table entry -/\ndef %sLowersName : Bool := %s\n", prefix, leanBool(sh.LowersName))
-		fmt.Fprintf(&b, "def %sComparisons : List String := %s\n", prefix, leanStrList(sh.Comparisons))
-		fmt.Fprintf(&b, "/-- the last statement is `return fmt.Errorf(…)`/`errors.New(…)`: %s -/\ndef %sTailIsError : Bool := %s\n",
-			strings.ReplaceAll(sh.Tail, "-/", "- /"), prefix, leanBool(sh.TailIsError))
-		fmt.Fprintf(&b, "/-- stores through the receiver inside / outside the loop -/\ndef %sStoresInLoop : List String := %s\ndef %sStoresOutside : List String := %s\n\n",
-			prefix, leanStrList(sh.StoresInLoop), prefix, leanStrList(sh.StoresOutside))
+		b.WriteString("\n")
 	}
 
 	// 5. struct tags
